@@ -5,6 +5,7 @@ V = os.path.dirname(os.path.dirname(os.path.abspath(__file__)))
 rows = []
 for d in sorted(glob.glob(os.path.join(V, 'seeded', '*'))):
     m = json.load(open(os.path.join(d, 'meta.json')))
+    if 'what' not in m: continue
     rows.append((os.path.basename(d), m))
 print('| id | what was changed | needs | detected | by |')
 print('|---|---|---|---|---|')
